@@ -138,6 +138,35 @@ def dense_op_class():
     return DenseOp
 
 
+def dense_lin_class():
+    """Harness-defined rectangular LinearOperator (TIMES / ADJOINT_TIMES) from a dense matrix."""
+    if "l" in _DENSE_CLS:
+        return _DENSE_CLS["l"]
+    import nifty.cl as ift
+
+    class DenseLin(ift.LinearOperator):
+        def __init__(self, domain, target, matrix):
+            self._domain = ift.DomainTuple.make(domain)
+            self._target = ift.DomainTuple.make(target)
+            self._m = np.array(matrix)
+            if self._m.shape != (self._target.size, self._domain.size):
+                raise ValueError("shape mismatch")
+            self._capability = self.TIMES | self.ADJOINT_TIMES
+
+        def apply(self, x, mode):
+            self._check_input(x, mode)
+            v = np.asarray(x.asnumpy()).reshape(-1)
+            if mode == self.TIMES:
+                return ift.makeField(self._target, (self._m @ v).reshape(self._target.shape))
+            return ift.makeField(self._domain, (self._m.conj().T @ v).reshape(self._domain.shape))
+
+        def __repr__(self):
+            return f"DenseLin{self._m.shape}"
+
+    _DENSE_CLS["l"] = DenseLin
+    return DenseLin
+
+
 # ------------------------------------------------------------------ monitors ---
 class Recorder:
     """Event sink for the class-level monitors (one per worker)."""
